@@ -131,9 +131,14 @@ structure State where
   lb : List (Key × Nat)
   policies : List (List Name)
   pickers : List Picker
+  pickerPolicy : List Nat := []   -- the policy each request in flight was matched by
+  policyScopes : Bool := false    -- does `MatchAttributes` give every policy its own cursor scope?
 deriving Repr
 
 def init : State := { eps := [], epoch := 0, lb := [], policies := [], pickers := [] }
+
+/-- the initial state of a cluster whose policies have cursor scopes of their own -/
+def initScoped (policyScopes : Bool) : State := { init with policyScopes := policyScopes }
 
 /-- `ClusterInfo.syncEndpoints` -/
 def syncEndpoints (s : State) (servers : List Server) : State :=
@@ -178,17 +183,24 @@ def indexResult (ready : List EP) (c : Nat) : PopOut :=
   | some e => .picked e.name e.gen
   | none => .panic
 
-/-- `endpointPickStrategy.Pop` -/
-def pop (eps : List EP) (lb : List (Key × Nat)) (us : List Name) : PopOut × List (Key × Nat) :=
+/-- the entry a cursor scope puts in front of the key: `MatchAttributes` gives the picker of policy `i` the scope "policy/i:"
+    (`[0]` is not an endpoint name) -/
+def scopeTag (i : Nat) : Key := [(([0] : Name), i + 1)]
+
+/-- `endpointPickStrategy.Pop` of a picker whose `cursorScope` is `tag` (`[]`: none) -/
+def popScoped (tag : Key) (eps : List EP) (lb : List (Key × Nat)) (us : List Name) : PopOut × List (Key × Nat) :=
   if us.isEmpty then (.noReady, lb) else
   let ready := readyList eps us
   match ready with
   | [] => (.noReady, lb)
   | [e] => (.picked e.name e.gen, lb)
   | _ =>
-    let key : Key := ready.map EP.id
+    let key : Key := tag ++ ready.map EP.id
     let c := toU64 (lbGet lb key + 1)            -- LoadOrStore(key, &0); atomic.AddUint64(lb, 1)
     (indexResult ready c, lbSet lb key c)
+
+/-- `endpointPickStrategy.Pop` without cursor scope -/
+def pop (eps : List EP) (lb : List (Key × Nat)) (us : List Name) : PopOut × List (Key × Nat) := popScoped [] eps lb us
 
 inductive Op
   | sync (servers : List Server) (policies : List (List Name))
@@ -214,11 +226,14 @@ deriving DecidableEq, Repr
 /-- `ClusterInfo.MatchAttributes` after `MatchPolicies` chose policy number `policy` (out of range: no policy matches) -/
 def matchAttrs (s : State) (policy : Nat) (order : List Name) : State × Out :=
   match s.policies[policy]? with
-  | none => ({ s with pickers := s.pickers ++ [none] }, .noRule)
+  | none => ({ s with pickers := s.pickers ++ [none], pickerPolicy := s.pickerPolicy ++ [policy] }, .noRule)
   | some subset =>
-    if !subset.isEmpty then ({ s with pickers := s.pickers ++ [some subset] }, .matched subset)
-    else if order.isPerm (s.eps.map (·.name)) then ({ s with pickers := s.pickers ++ [some order] }, .matched order)
-    else ({ s with pickers := s.pickers ++ [none] }, .badOrder)
+    if !subset.isEmpty then ({ s with pickers := s.pickers ++ [some subset], pickerPolicy := s.pickerPolicy ++ [policy] }, .matched subset)
+    else if order.isPerm (s.eps.map (·.name)) then ({ s with pickers := s.pickers ++ [some order], pickerPolicy := s.pickerPolicy ++ [policy] }, .matched order)
+    else ({ s with pickers := s.pickers ++ [none], pickerPolicy := s.pickerPolicy ++ [policy] }, .badOrder)
+
+/-- the cursor scope of request `j` -/
+def pickerTag (s : State) (j : Nat) : Key := if s.policyScopes then scopeTag ((s.pickerPolicy[j]?).getD 0) else []
 
 def step (s : State) : Op → State × Out
   | .sync servers policies => (sync s servers policies, .none)
@@ -233,7 +248,7 @@ def step (s : State) : Op → State × Out
   | .pop j =>
     match s.pickers[j]? with
     | some (some us) =>
-      let r := pop s.eps s.lb us
+      let r := popScoped (pickerTag s j) s.eps s.lb us
       ({ s with lb := r.2 }, .popped r.1)
     | _ => (s, .noPicker)
 
@@ -300,6 +315,16 @@ def runReqs (own : Bool) (eps : List EP) : List (Key × Nat) → List (Key × Na
         let a := pop eps lb order
         let d := pop eps a.2 r.us
         d.1 :: runReqs own eps d.2 lbA rest
+
+/-- the picks of several dispatch policies, interleaved in any way: `(policy, upstream list)` per pick.  `own = true`: every
+    policy has its own cursors (`lbs p`); `own = false`: all policies draw from the same ones (`lbs 0`), as they do when the
+    cursor key is only the ordered ready list -/
+def runPolicies (own : Bool) (eps : List EP) : (Nat → List (Key × Nat)) → List (Nat × List Name) → List (Nat × PopOut)
+  | _, [] => []
+  | lbs, (p, us) :: rest =>
+    let sc := if own then p else 0
+    let r := pop eps (lbs sc) us
+    (p, r.1) :: runPolicies own eps (fun q => if q = sc then r.2 else lbs q) rest
 
 /-! ## concurrent pickers (C14): one atomic action per step
 
